@@ -53,14 +53,14 @@ theorem final_message_last (stdin : Bool) (id : Nat) (sc : Script) (s : LSt R) (
 lines followed by exactly the exit code returned by the engine -/
 theorem exit_code_last (stdin : Bool) (id : Nat) (sc : Script) (s : LSt R) (k : Nat) (c : Int)
     (hlog : sc.walLog = true) (hrec : recorded s.base id = true) (hl : sc.logs = some k)
-    (ha : stdin = true → sc.attach = true) (hw : sc.wait = some c) :
+    (ha : stdin = true → sc.attach = true) (hw : sc.wait = some c) (hctx : sc.ctxDeadAtStart = false) :
     (lambdaOne stdin (.ok id) sc s).2 = List.replicate k ⟨id, .data⟩ ++ [⟨id, .exit c⟩] := by
   have hrec' : recorded ({ s with lam := s.lam ++ [id] } : LSt R).base id = true := hrec
   have ha' : (stdin && !sc.attach) = false := by
     cases stdin with
     | false => rfl
     | true => simp [ha rfl]
-  simp [lambdaOne, hlog, lambdaBody, hrec', hl, ha', hw]
+  simp [lambdaOne, hlog, lambdaBody, hrec', hl, ha', hw, hctx]
 
 /-- the `create-lambda` event is committed when the worker returns -/
 theorem lambda_wal_committed (stdin : Bool) (id : Nat) (sc : Script) (s : LSt R)
@@ -159,10 +159,10 @@ lines followed by its exit code, whenever logs, (attach) and wait succeed -/
 theorem run_all_exit_code_last (stdin : Bool) (cms : List (CreateMsg × Script)) (s : LSt R) (id : Nat) (sc : Script)
     (k : Nat) (c : Int) (hnd : (okIds cms).Nodup) (h0 : 0 ∉ okIds cms) (hmem : (CreateMsg.ok id, sc) ∈ cms)
     (hlog : sc.walLog = true) (hrec : recorded s.base id = true) (hl : sc.logs = some k)
-    (ha : stdin = true → sc.attach = true) (hw : sc.wait = some c) :
+    (ha : stdin = true → sc.attach = true) (hw : sc.wait = some c) (hctx : sc.ctxDeadAtStart = false) :
     msgsOf id (runAll stdin cms s).2 = List.replicate k ⟨id, .data⟩ ++ [⟨id, .exit c⟩] := by
   rw [runAll_msgs stdin cms s id sc hnd h0 hmem]
-  exact exit_code_last stdin id sc s k c hlog hrec hl ha hw
+  exact exit_code_last stdin id sc s k c hlog hrec hl ha hw hctx
 
 /-- in every outcome the last message of a workload within the stream is its final message -/
 theorem run_all_final_message_last (stdin : Bool) (cms : List (CreateMsg × Script)) (s : LSt R) (id : Nat) (sc : Script)
@@ -171,6 +171,19 @@ theorem run_all_final_message_last (stdin : Bool) (cms : List (CreateMsg × Scri
       (∀ m ∈ out, m = ⟨id, .data⟩) ∧ (fin.kind = .error ∨ ∃ c, fin.kind = .exit c) := by
   rw [runAll_msgs stdin cms s id sc hnd h0 hmem]
   exact final_message_last stdin id sc s hlog
+
+/-- **Cleanup does not depend on how the request context ended nor on stdin.**  Whether the
+caller's context is still live, was CANCELLED, or its DEADLINE EXPIRED while the workload ran
+(gRPC deadline, AsyncTimeout), and whether the client still holds stdin open when the output
+ends: the worker reaches the same state (removal and commit run under a context detached from
+both cancellation and deadline; the end of the output does not wait for the stdin forwarder)
+and sends the same messages. -/
+theorem cleanup_independent_of_request_context (stdin : Bool) (cm : CreateMsg) (sc : Script) (s : LSt R)
+    (e : CtxEnd) (open_ : Bool) :
+    lambdaOne stdin cm { sc with ctxEnd := e, stdinOpen := open_ } s = lambdaOne stdin cm sc s := by
+  cases cm with
+  | failed => rfl
+  | ok id => simp [lambdaOne, lambdaBody]
 
 /-- **The gRPC forwarding loop drains the stream whatever `Send` returns**: every message produced
 by the workers is consumed (delivered or logged as unsent), in order — so all workers run to
